@@ -21,6 +21,8 @@ def run(ctx: Ctx, chk) -> None:
     chk.run_rule(rearm1, ctx)
     chk.run_rule(cover1, ctx)
     chk.run_rule(who_marker, ctx)
+    chk.run_rule(sb.buffer_once, ctx)
+    chk.run_rule(sb.buffer_plain, ctx)
 
 
 def _NOT_HANDLER(h: FuncInfo) -> bool:
